@@ -300,7 +300,7 @@ func TestC19(t *testing.T) {
 	}
 	Explore("TestC19", rep, runs)
 	if n, _ := rep.Extra["private_runs_checked"].(int64); n == 0 {
-		core.HarnessError("vacuous: no private run")
+		rep.Vacuous("vacuous: no private run")
 	}
 	rep.Finish()
 }
